@@ -116,6 +116,9 @@ theorem plain_step_refines {db : Db} {σ : PSt} (hr : PRel db σ) (op : Op) {σ'
   | cnt _ => simp [specPlain] at hspec
   | cntAll => simp [specPlain] at hspec
   | items => simp [specPlain] at hspec
+  | itemsTop _ => simp [specPlain] at hspec
+  | fullItems _ => simp [specPlain] at hspec
+  | trim _ => simp [specPlain] at hspec
 
 def specRunPlain (watch : List Bytes) : PSt → List Op → Option (List (Res × List Res))
   | _, [] => some []
